@@ -4,18 +4,21 @@ Base/Utf8.vos Base/Utf8.vok Base/Utf8.required_vos: Base/Utf8.v
 Base/Utf8Proofs.vo Base/Utf8Proofs.glob Base/Utf8Proofs.v.beautified Base/Utf8Proofs.required_vo: Base/Utf8Proofs.v Base/Utf8.vo
 Base/Utf8Proofs.vio: Base/Utf8Proofs.v Base/Utf8.vio
 Base/Utf8Proofs.vos Base/Utf8Proofs.vok Base/Utf8Proofs.required_vos: Base/Utf8Proofs.v Base/Utf8.vos
-Capi/CapiCheck.vo Capi/CapiCheck.glob Capi/CapiCheck.v.beautified Capi/CapiCheck.required_vo: Capi/CapiCheck.v Gen/CapiEffects.vo Capi/LastError.vo
-Capi/CapiCheck.vio: Capi/CapiCheck.v Gen/CapiEffects.vio Capi/LastError.vio
-Capi/CapiCheck.vos Capi/CapiCheck.vok Capi/CapiCheck.required_vos: Capi/CapiCheck.v Gen/CapiEffects.vos Capi/LastError.vos
+Capi/CapiCheck.vo Capi/CapiCheck.glob Capi/CapiCheck.v.beautified Capi/CapiCheck.required_vo: Capi/CapiCheck.v Gen/CapiEffects.vo Capi/LastError.vo Capi/Pending.vo
+Capi/CapiCheck.vio: Capi/CapiCheck.v Gen/CapiEffects.vio Capi/LastError.vio Capi/Pending.vio
+Capi/CapiCheck.vos Capi/CapiCheck.vok Capi/CapiCheck.required_vos: Capi/CapiCheck.v Gen/CapiEffects.vos Capi/LastError.vos Capi/Pending.vos
 Capi/Flags.vo Capi/Flags.glob Capi/Flags.v.beautified Capi/Flags.required_vo: Capi/Flags.v Gen/CapiEffects.vo
 Capi/Flags.vio: Capi/Flags.v Gen/CapiEffects.vio
 Capi/Flags.vos Capi/Flags.vok Capi/Flags.required_vos: Capi/Flags.v Gen/CapiEffects.vos
 Capi/LastError.vo Capi/LastError.glob Capi/LastError.v.beautified Capi/LastError.required_vo: Capi/LastError.v Gen/CapiEffects.vo
 Capi/LastError.vio: Capi/LastError.v Gen/CapiEffects.vio
 Capi/LastError.vos Capi/LastError.vok Capi/LastError.required_vos: Capi/LastError.v Gen/CapiEffects.vos
-Capi/LastErrorProofs.vo Capi/LastErrorProofs.glob Capi/LastErrorProofs.v.beautified Capi/LastErrorProofs.required_vo: Capi/LastErrorProofs.v Gen/CapiEffects.vo Capi/LastError.vo Capi/Flags.vo Capi/Values.vo
-Capi/LastErrorProofs.vio: Capi/LastErrorProofs.v Gen/CapiEffects.vio Capi/LastError.vio Capi/Flags.vio Capi/Values.vio
-Capi/LastErrorProofs.vos Capi/LastErrorProofs.vok Capi/LastErrorProofs.required_vos: Capi/LastErrorProofs.v Gen/CapiEffects.vos Capi/LastError.vos Capi/Flags.vos Capi/Values.vos
+Capi/LastErrorProofs.vo Capi/LastErrorProofs.glob Capi/LastErrorProofs.v.beautified Capi/LastErrorProofs.required_vo: Capi/LastErrorProofs.v Gen/CapiEffects.vo Capi/LastError.vo Capi/Flags.vo Capi/Values.vo Capi/Pending.vo
+Capi/LastErrorProofs.vio: Capi/LastErrorProofs.v Gen/CapiEffects.vio Capi/LastError.vio Capi/Flags.vio Capi/Values.vio Capi/Pending.vio
+Capi/LastErrorProofs.vos Capi/LastErrorProofs.vok Capi/LastErrorProofs.required_vos: Capi/LastErrorProofs.v Gen/CapiEffects.vos Capi/LastError.vos Capi/Flags.vos Capi/Values.vos Capi/Pending.vos
+Capi/Pending.vo Capi/Pending.glob Capi/Pending.v.beautified Capi/Pending.required_vo: Capi/Pending.v Gen/CapiEffects.vo
+Capi/Pending.vio: Capi/Pending.v Gen/CapiEffects.vio
+Capi/Pending.vos Capi/Pending.vok Capi/Pending.required_vos: Capi/Pending.v Gen/CapiEffects.vos
 Capi/Values.vo Capi/Values.glob Capi/Values.v.beautified Capi/Values.required_vo: Capi/Values.v Gen/CapiEffects.vo Capi/Flags.vo
 Capi/Values.vio: Capi/Values.v Gen/CapiEffects.vio Capi/Flags.vio
 Capi/Values.vos Capi/Values.vok Capi/Values.required_vos: Capi/Values.v Gen/CapiEffects.vos Capi/Flags.vos
@@ -283,6 +286,9 @@ Gen/FoldGen.vos Gen/FoldGen.vok Gen/FoldGen.required_vos: Gen/FoldGen.v
 Gen/Grammar.vo Gen/Grammar.glob Gen/Grammar.v.beautified Gen/Grammar.required_vo: Gen/Grammar.v Parser/Machine.vo
 Gen/Grammar.vio: Gen/Grammar.v Parser/Machine.vio
 Gen/Grammar.vos Gen/Grammar.vok Gen/Grammar.required_vos: Gen/Grammar.v Parser/Machine.vos
+Gen/HoistGen.vo Gen/HoistGen.glob Gen/HoistGen.v.beautified Gen/HoistGen.required_vo: Gen/HoistGen.v 
+Gen/HoistGen.vio: Gen/HoistGen.v 
+Gen/HoistGen.vos Gen/HoistGen.vok Gen/HoistGen.required_vos: Gen/HoistGen.v 
 Gen/HostFns.vo Gen/HostFns.glob Gen/HostFns.v.beautified Gen/HostFns.required_vo: Gen/HostFns.v Cond/HostTypes.vo
 Gen/HostFns.vio: Gen/HostFns.v Cond/HostTypes.vio
 Gen/HostFns.vos Gen/HostFns.vok Gen/HostFns.required_vos: Gen/HostFns.v Cond/HostTypes.vos
@@ -364,6 +370,12 @@ Opt/Fold.vos Opt/Fold.vok Opt/Fold.required_vos: Opt/Fold.v Gen/FoldGen.vos
 Opt/FoldProofs.vo Opt/FoldProofs.glob Opt/FoldProofs.v.beautified Opt/FoldProofs.required_vo: Opt/FoldProofs.v Gen/FoldGen.vo Opt/Fold.vo
 Opt/FoldProofs.vio: Opt/FoldProofs.v Gen/FoldGen.vio Opt/Fold.vio
 Opt/FoldProofs.vos Opt/FoldProofs.vok Opt/FoldProofs.required_vos: Opt/FoldProofs.v Gen/FoldGen.vos Opt/Fold.vos
+Opt/Hoist.vo Opt/Hoist.glob Opt/Hoist.v.beautified Opt/Hoist.required_vo: Opt/Hoist.v Gen/HoistGen.vo
+Opt/Hoist.vio: Opt/Hoist.v Gen/HoistGen.vio
+Opt/Hoist.vos Opt/Hoist.vok Opt/Hoist.required_vos: Opt/Hoist.v Gen/HoistGen.vos
+Opt/HoistProofs.vo Opt/HoistProofs.glob Opt/HoistProofs.v.beautified Opt/HoistProofs.required_vo: Opt/HoistProofs.v Gen/HoistGen.vo Opt/Hoist.vo
+Opt/HoistProofs.vio: Opt/HoistProofs.v Gen/HoistGen.vio Opt/Hoist.vio
+Opt/HoistProofs.vos Opt/HoistProofs.vok Opt/HoistProofs.required_vos: Opt/HoistProofs.v Gen/HoistGen.vos Opt/Hoist.vos
 Opt/OptCheck.vo Opt/OptCheck.glob Opt/OptCheck.v.beautified Opt/OptCheck.required_vo: Opt/OptCheck.v Gen/FoldGen.vo Opt/Fold.vo Gen/BoundsGen.vo Opt/Bounds.vo Gen/FastScanGen.vo Opt/FastScan.vo
 Opt/OptCheck.vio: Opt/OptCheck.v Gen/FoldGen.vio Opt/Fold.vio Gen/BoundsGen.vio Opt/Bounds.vio Gen/FastScanGen.vio Opt/FastScan.vio
 Opt/OptCheck.vos Opt/OptCheck.vok Opt/OptCheck.required_vos: Opt/OptCheck.v Gen/FoldGen.vos Opt/Fold.vos Gen/BoundsGen.vos Opt/Bounds.vos Gen/FastScanGen.vos Opt/FastScan.vos
